@@ -658,25 +658,25 @@ func runCase(id string, cfg Config, r *core.Rand) {
 	gates.Reset()
 
 	hits := gates.Total() - hits0
-	core.Add("calls_ok", cs.callsOK)
-	core.Add("calls_failed", cs.callsFailed)
-	core.Add("pushes_sent", cs.pushesSent)
-	core.Add("raw_pushes_sent", cs.rawPushes)
-	core.Add("replies_in_an_accepted_codec_checked", cs.acceptAsked)
-	core.Add("ok_calls_without_any_metadata", cs.bare)
-	core.Add("ok_calls_answered_with_the_empty_value", cs.emptyReplies)
+	core.Add("calls_ok", atomic.LoadInt64(&cs.callsOK))
+	core.Add("calls_failed", atomic.LoadInt64(&cs.callsFailed))
+	core.Add("pushes_sent", atomic.LoadInt64(&cs.pushesSent))
+	core.Add("raw_pushes_sent", atomic.LoadInt64(&cs.rawPushes))
+	core.Add("replies_in_an_accepted_codec_checked", atomic.LoadInt64(&cs.acceptAsked))
+	core.Add("ok_calls_without_any_metadata", atomic.LoadInt64(&cs.bare))
+	core.Add("ok_calls_answered_with_the_empty_value", atomic.LoadInt64(&cs.emptyReplies))
 	core.Add("heartbeat_pings_received_between_user_messages", atomic.LoadInt64(&cs.beats))
-	core.Add("completed_calls_whose_accessors_were_read_by_3_goroutines", cs.accessorFans)
+	core.Add("completed_calls_whose_accessors_were_read_by_3_goroutines", atomic.LoadInt64(&cs.accessorFans))
 	core.Add("pushes_received", atomic.LoadInt64(&cs.pushRecv))
-	core.Add("handler_invocations", mon.Handled)
-	core.Add("ctx_recycles_observed", mon.Recycles)
+	core.Add("handler_invocations", atomic.LoadInt64(&mon.Handled))
+	core.Add("ctx_recycles_observed", atomic.LoadInt64(&mon.Recycles))
 	core.Add("gate_hits", hits)
-	core.Add("evaluations", cs.callsOK+cs.callsFailed+cs.pushesSent)
-	core.Max("max_handlers_in_flight", mon.MaxFlight)
+	core.Add("evaluations", atomic.LoadInt64(&cs.callsOK)+atomic.LoadInt64(&cs.callsFailed)+atomic.LoadInt64(&cs.pushesSent))
+	core.Max("max_handlers_in_flight", atomic.LoadInt64(&mon.MaxFlight))
 	sig := fmt.Sprintf("%s/%s/pipe=%s/S%dG%d/%s/log=%s/delay=%d/tcp=%v", cfg.Proto, strings.Join(cfg.Kinds, "+"), cfg.Pipe, cfg.S, cfg.G, cfg.Chunk, cfg.Log, cfg.Delay, cfg.TCP && p.Stream) + fmt.Sprintf("/ages=%v/seq=%s/beat=%s/secure=%v", cfg.Ages, cfg.Seq, cfg.Beat, cfg.Sec)
-	nontrivial := mon.MaxFlight >= 2 && (mon.Recycles >= 1 || *lean) && cs.callsOK > 0
+	nontrivial := atomic.LoadInt64(&mon.MaxFlight) >= 2 && (atomic.LoadInt64(&mon.Recycles) >= 1 || *lean) && atomic.LoadInt64(&cs.callsOK) > 0
 	if cfg.S == 1 && cfg.G == 1 {
-		nontrivial = cs.callsOK > 0 && (mon.Recycles >= 1 || *lean)
+		nontrivial = atomic.LoadInt64(&cs.callsOK) > 0 && (atomic.LoadInt64(&mon.Recycles) >= 1 || *lean)
 	}
 	if nontrivial {
 		core.Distinct("nontrivial", sig)
@@ -684,8 +684,8 @@ func runCase(id string, cfg Config, r *core.Rand) {
 	for _, k := range cfg.Kinds {
 		core.Distinct("proto_kind_pipe", cfg.Proto+"/"+k+"/"+cfg.Pipe)
 	}
-	core.Sample(map[string]interface{}{"config": cfg, "calls_ok": cs.callsOK, "calls_failed": cs.callsFailed, "pushes": cs.pushesSent,
-		"max_in_flight": mon.MaxFlight, "ctx_recycles": mon.Recycles, "gate_hits": hits})
+	core.Sample(map[string]interface{}{"config": cfg, "calls_ok": atomic.LoadInt64(&cs.callsOK), "calls_failed": atomic.LoadInt64(&cs.callsFailed), "pushes": atomic.LoadInt64(&cs.pushesSent),
+		"max_in_flight": atomic.LoadInt64(&mon.MaxFlight), "ctx_recycles": atomic.LoadInt64(&mon.Recycles), "gate_hits": hits})
 
 	if len(cs.failSamples) > 0 {
 		core.Add("cases_with_failed_calls", 1)
